@@ -504,18 +504,25 @@ func NewConfig(configFile string) (*Config, error) { // nolint: gocyclo
 		v      = viper.New()
 	)
 
-	// Return default config if config file is not given.
+	// Allow overriding config with environment variables
+	v.SetEnvPrefix("LIFTBRIDGE")
+	v.AutomaticEnv()
+
+	// Telemetry is documented to be switched off with
+	// LIFTBRIDGE_TELEMETRY_ENABLED=false. AutomaticEnv alone would only look
+	// for LIFTBRIDGE_TELEMETRY.ENABLED, so bind the documented name explicitly.
+	v.BindEnv(configTelemetryEnabled, "LIFTBRIDGE_TELEMETRY_ENABLED")
+
+	// Return default config if config file is not given. The telemetry opt-out
+	// from the environment is still honored.
 	if configFile == "" {
+		parseTelemetryConfig(config, v)
 		return config, nil
 	}
 
 	// Expect a yaml config file.
 	v.SetConfigFile(configFile)
 	v.SetConfigType("yaml")
-
-	// Allow overriding config with environment variables
-	v.SetEnvPrefix("LIFTBRIDGE")
-	v.AutomaticEnv()
 
 	// Parse the config file.
 	if err := v.ReadInConfig(); err != nil {
